@@ -3,10 +3,11 @@ The simulation behind `C01.refines`: the index-addressed model (`Uniflow.Writer`
 generations) and the id-keyed specification (`Uniflow.WriterSpec`) are related by `Rel`, and one
 step of the model from a related state is one step of the specification – for every step.
 
-The model's queues hold link generations, the specification's hold write ids; `FifoOK` relates
-them entry by entry: an entry whose generation is the reader's current link generation belongs to
-the oldest row that still owes the reader an answer, any other entry (a request of a link that
-`Unlink` removed) belongs to a write whose row owes the reader nothing.
+The model's queues hold (link generation, write number) pairs, the specification's hold write
+ids; write numbers ARE write ids (`Writer.written` = `nextW`), so the queues – and the answers in
+flight between `Reader.Receive`'s pop and `(*Writer).receive` – correspond entry by entry.  The
+only thing the model checks in addition is the link generation; `Rel.ent` says it always agrees
+when the row of the write still has a slot of the reader.
 -/
 import Uniflow.Proofs.Writer
 
@@ -125,101 +126,54 @@ theorem linkAt_eraseIdx {r r' : RId} {xs : List RId} (gs : List Nat) {i : Nat} (
         simp only [List.eraseIdx_cons_succ, linkAt]
         rw [ih gs hj]
 
-/-! ### The queues -/
-
-/-- Queue of generations `gs` (model) against queue of write ids `ws` (specification) for a
-reader whose current link generation is `cur`; `ob` = ids of the rows that owe the reader an
-answer, oldest first. -/
-def FifoOK (cur : Option Nat) : List Nat → List Nat → List Nat → Prop
-  | [], [], ob => ob = []
-  | g :: gs, w :: ws, ob =>
-    if some g = cur then ∃ ob', ob = w :: ob' ∧ FifoOK cur gs ws ob'
-    else w ∉ ob ∧ FifoOK cur gs ws ob
-  | _, _, _ => False
-
-theorem fifoOK_len {cur : Option Nat} {gs ws ob : List Nat} (h : FifoOK cur gs ws ob) : gs.length = ws.length := by
-  induction gs generalizing ws ob with
-  | nil => cases ws <;> simp_all [FifoOK]
-  | cons g gs ih =>
-    cases ws with
-    | nil => simp [FifoOK] at h
-    | cons w ws =>
-      simp only [FifoOK] at h
-      split at h
-      · obtain ⟨ob', _, h'⟩ := h; simp [ih h']
-      · simp [ih h.2]
-
-theorem fifoOK_stale {cur : Option Nat} {gs ws : List Nat} (hl : gs.length = ws.length)
-    (hs : ∀ g ∈ gs, some g ≠ cur) : FifoOK cur gs ws [] := by
-  induction gs generalizing ws with
-  | nil => cases ws <;> simp_all [FifoOK]
-  | cons g gs ih =>
-    cases ws with
-    | nil => simp at hl
-    | cons w ws =>
-      simp only [FifoOK]
-      rw [if_neg (hs g (by simp))]
-      exact ⟨by simp, ih (by simpa using hl) (fun g' hg' => hs g' (by simp [hg']))⟩
-
-theorem fifoOK_push {cur : Option Nat} {gs ws ob : List Nat} {g w : Nat} (h : FifoOK cur gs ws ob)
-    (hg : some g = cur) (hw : ∀ w' ∈ ws, w' ≠ w) : FifoOK cur (gs ++ [g]) (ws ++ [w]) (ob ++ [w]) := by
-  induction gs generalizing ws ob with
-  | nil =>
-    cases ws with
-    | nil =>
-      simp only [FifoOK] at h; subst h
-      simp only [List.nil_append, FifoOK, hg, if_true]
-      exact ⟨[], rfl, rfl⟩
-    | cons _ _ => simp [FifoOK] at h
-  | cons g0 gs ih =>
-    cases ws with
-    | nil => simp [FifoOK] at h
-    | cons w0 ws =>
-      simp only [FifoOK] at h
-      simp only [List.cons_append, FifoOK]
-      have hw' : ∀ w' ∈ ws, w' ≠ w := fun w' hw'' => hw w' (by simp [hw''])
-      split at h
-      · rename_i hc
-        obtain ⟨ob', e, h'⟩ := h
-        rw [if_pos hc]
-        exact ⟨ob' ++ [w], by simp [e], ih h' hw'⟩
-      · rename_i hc
-        rw [if_neg hc]
-        refine ⟨?_, ih h.2 hw'⟩
-        simp only [List.mem_append, List.mem_singleton, not_or]
-        exact ⟨h.1, hw w0 (by simp)⟩
-
 /-! ### The relation -/
 
 /-- The reader's queue as the writer sees it: its requests while it is open, the drop notices in
-flight once it is closed. -/
-def fifo (m : W) (r : RId) : List Nat := if m.closed r then m.drops r else m.pend r
+flight once it is closed – (link generation, write number). -/
+def fifo (m : W) (r : RId) : List (Nat × Nat) := if m.closed r then m.drops r else m.pend r
 
-structure Inv (s : S) : Prop where
+/-- Everything reader `r` still has out for this writer: queue entries and answers in flight. -/
+def entries (m : W) (r : RId) : List (Nat × Nat) := fifo m r ++ (m.flight r).map (·.2)
+
+/-- The pending row of write `w` has a slot of reader `r` (r was linked when `w` was written and
+has not been unlinked since). -/
+def hasSlot (rows : List SRow) (w : Nat) (r : RId) : Prop := ∃ row ∈ rows, row.wid = w ∧ r ∈ row.readers
+
+structure Core (s : S) : Prop where
   nodup : s.linked.Nodup
   rows : RowsOK s.linked s.nextW s.rows
   head : ∀ row rest, s.rows = row :: rest → hasNil row.cells = true
   fin : s.done = true → s.linked = []
+  finRows : s.done = true → s.rows = []
+
+structure Inv (s : S) : Prop extends Core s where
   owedLt : ∀ r, ∀ w ∈ s.owed r, w < s.nextW
+  flightLt : ∀ r, ∀ e ∈ s.flight r, e.2 < s.nextW
+  /-- every answer a pending row waits for is on its way: in the reader's queue or in flight -/
+  backed : ∀ r, ∀ w ∈ owedBy s.rows r, w ∈ s.owed r ∨ ∃ a, (a, w) ∈ s.flight r
 
 structure Rel (m : W) (s : S) : Prop where
   readers : m.readers = s.linked
   rows : m.rows = s.rows.map SRow.cells
+  writes : m.writes = s.rows.map (·.wid)
+  written : m.written = s.nextW
   done : m.done = s.done
   closed : m.closed = s.closed
   linksLen : m.links.length = m.readers.length
-  linksLe : ∀ g ∈ m.links, g ≤ m.linked
-  fifoLe : ∀ r, ∀ g ∈ fifo m r, g ≤ m.linked
   pendClosed : ∀ r, m.closed r = true → m.pend r = []
   dropsOpen : ∀ r, m.closed r = false → m.drops r = []
-  fifo : ∀ r, FifoOK (linkOf m r) (fifo m r) (s.owed r) (owedBy s.rows r)
+  queue : ∀ r, (fifo m r).map Prod.snd = s.owed r
+  flight : ∀ r, (m.flight r).map (fun e => (e.1, e.2.2)) = s.flight r
+  ent : ∀ r, ∀ e ∈ entries m r, hasSlot s.rows e.2 r → linkOf m r = some e.1
   inv : Inv s
 
 theorem rel_init : Rel W.init S.init := by
-  refine ⟨rfl, rfl, rfl, rfl, rfl, by simp [W.init], by simp [W.init, fifo], fun _ _ => rfl, fun _ _ => rfl, ?_, ?_⟩
-  · intro r; simp [W.init, S.init, fifo, FifoOK, owedBy]
-  · exact ⟨by simp [S.init], ⟨by simp [S.init], by simp [S.init], by simp [S.init], by simp [S.init]⟩,
-      by simp [S.init], by simp [S.init], by simp [S.init]⟩
+  refine ⟨rfl, rfl, rfl, rfl, rfl, rfl, rfl, fun _ _ => rfl, fun _ _ => rfl, ?_, ?_, ?_, ?_⟩
+  · intro r; simp [W.init, S.init, fifo]
+  · intro r; simp [W.init, S.init]
+  · intro r e he; simp [W.init, entries, fifo] at he
+  · exact ⟨⟨by simp [S.init], ⟨by simp [S.init], by simp [S.init], by simp [S.init], by simp [S.init]⟩,
+      by simp [S.init], by simp [S.init], by simp [S.init]⟩, by simp [S.init], by simp [S.init], by simp [S.init, owedBy]⟩
 
 /-! ### Helper lemmas on rows -/
 
@@ -322,8 +276,6 @@ theorem arrive_ret (s : S) (w : Nat) (r : RId) (a : Ans) : ∃ b, (arrive s w r 
     · split <;> exact ⟨_, rfl⟩
 
 
-/-! ### An answer or drop notice arriving -/
-
 theorem credit_mem {w : Nat} {r : RId} {a : Fill} {rows rows' : List SRow} (h : credit w r a rows = some rows') :
     w ∈ owedBy rows r := by
   induction rows generalizing rows' with
@@ -342,145 +294,312 @@ theorem credit_mem {w : Nat} {r : RId} {a : Fill} {rows rows' : List SRow} (h : 
         have := ih hc
         split <;> simp [this]
 
+
+/-! ### An answer or drop notice arriving -/
+
 theorem arrive_fields (s : S) (w : Nat) (r : RId) (a : Ans) :
     (arrive s w r a).1.linked = s.linked ∧ (arrive s w r a).1.done = s.done ∧
     (arrive s w r a).1.closed = s.closed ∧ (arrive s w r a).1.owed = s.owed ∧
-    (arrive s w r a).1.nextW = s.nextW := by
+    (arrive s w r a).1.nextW = s.nextW ∧ (arrive s w r a).1.flight = s.flight := by
   simp only [arrive]
   split
-  · exact ⟨rfl, rfl, rfl, rfl, rfl⟩
+  · exact ⟨rfl, rfl, rfl, rfl, rfl, rfl⟩
   split
-  · exact ⟨rfl, rfl, rfl, rfl, rfl⟩
-  split <;> exact ⟨rfl, rfl, rfl, rfl, rfl⟩
+  · exact ⟨rfl, rfl, rfl, rfl, rfl, rfl⟩
+  split <;> exact ⟨rfl, rfl, rfl, rfl, rfl, rfl⟩
 
-theorem W_rows_self {m : W} {x : List Row} (h : m.rows = x) : { m with rows := x } = m := by
-  cases m; simp only at h; subst h; rfl
+theorem W_rows_self {m : W} {x : List Row} {y : List Nat} (h : m.rows = x) (h' : m.writes = y) :
+    { m with rows := x, writes := y } = m := by
+  cases m; simp only at h h'; subst h; subst h'; rfl
 
 def arrived (s : S) (rows' : List SRow) : S :=
   { s with rows := (WriterSpec.flush rows').1, emittedIds := s.emittedIds ++ (WriterSpec.flush rows').2.2 }
 
-/-- `(*Writer).receive(a, r, g)` against `arrive s w r a`, where `(g, w)` is the entry just
-popped from the reader's queue: if `g` is the reader's current link generation the oldest row
-owing `r` is the row of `w`; otherwise no row owes `r` an answer for `w`. -/
-theorem sim_arrive {m : W} {s : S} (w g : Nat) (r : RId) (a : Ans)
-    (hre : m.readers = s.linked) (hro : m.rows = s.rows.map SRow.cells) (hdo : m.done = s.done)
-    (hll : m.links.length = m.readers.length) (hI : Inv s)
-    (hq : if some g = linkOf m r then ∃ ob', owedBy s.rows r = w :: ob' else w ∉ owedBy s.rows r) :
-    (receive m a r g).2 = (arrive s w r a).2 ∧
-    (receive m a r g).1 = { m with rows := (arrive s w r a).1.rows.map SRow.cells } ∧
-    Inv (arrive s w r a).1 ∧
+theorem flush_wids_drop (rows : List SRow) :
+    (rows.map (·.wid)).drop (WriterSpec.flush rows).2.1.length = (WriterSpec.flush rows).1.map (·.wid) := by
+  induction rows with
+  | nil => rfl
+  | cons row tl ih =>
+    simp only [WriterSpec.flush]
+    split
+    · simp
+    · simpa using ih
+
+/-- The keys (write id, readers) of the rows: all that `hasSlot`, `RowsOK` depend on. -/
+def keys (rows : List SRow) : List (Nat × List RId) := rows.map fun row => (row.wid, row.readers)
+
+theorem hasSlot_keys {rows : List SRow} {w : Nat} {r : RId} :
+    hasSlot rows w r ↔ ∃ p ∈ keys rows, p.1 = w ∧ r ∈ p.2 := by
+  simp only [hasSlot, keys, List.mem_map]
+  constructor
+  · rintro ⟨row, hm, h1, h2⟩; exact ⟨_, ⟨row, hm, rfl⟩, h1, h2⟩
+  · rintro ⟨p, ⟨row, hm, rfl⟩, h1, h2⟩; exact ⟨row, hm, h1, h2⟩
+
+theorem credit_keys {w : Nat} {r : RId} {a : Fill} {rows rows' : List SRow} (h : credit w r a rows = some rows') :
+    keys rows' = keys rows := by
+  induction rows generalizing rows' with
+  | nil => simp [credit] at h
+  | cons row tl ih =>
+    simp only [credit] at h
+    split at h
+    · split at h
+      · injection h with h; subst h
+        simp only [keys, List.map_cons, List.cons.injEq, and_true]
+        exact Prod.ext rfl (fill_readers' row r a)
+      · simp at h
+    · cases hc : credit w r a tl with
+      | none => simp [hc] at h
+      | some tl' =>
+        simp only [hc, Option.map_some, Option.some.injEq] at h; subst h
+        have := ih hc
+        simp only [keys] at this ⊢
+        simp [this]
+
+theorem hasSlot_suffix {pre rows : List SRow} {w : Nat} {r : RId} (h : hasSlot rows w r) : hasSlot (pre ++ rows) w r := by
+  obtain ⟨row, hm, h1, h2⟩ := h
+  exact ⟨row, by simp [hm], h1, h2⟩
+
+theorem hasSlot_flush {rows : List SRow} {w : Nat} {r : RId} (h : hasSlot (WriterSpec.flush rows).1 w r) :
+    hasSlot rows w r := by
+  obtain ⟨pre, h1, _⟩ := flush_spec rows
+  rw [h1]; exact hasSlot_suffix h
+
+/-- What `credit` does to the rows owing a reader. -/
+theorem credit_owedBy {w : Nat} {r : RId} {a : Fill} {rows rows' : List SRow} (h : credit w r a rows = some rows')
+    (hw : (rows.map (·.wid)).Pairwise (· < ·)) :
+    (∀ r', r' ≠ r → owedBy rows' r' = owedBy rows r') ∧
+    (∀ w' ∈ owedBy rows' r, w' ∈ owedBy rows r ∧ w' ≠ w) := by
+  induction rows generalizing rows' with
+  | nil => simp [credit] at h
+  | cons row tl ih =>
+    simp only [List.map_cons, List.pairwise_cons] at hw
+    simp only [credit] at h
+    split at h
+    · rename_i hwid
+      split at h
+      · rename_i ho
+        injection h with h; subst h
+        constructor
+        · intro r' hne
+          rw [owedBy_cons, owedBy_cons]
+          have : (row.fill r a).owes r' = row.owes r' := fill_owes_other row.slots a hne
+          rw [this]; rfl
+        · intro w' hw'
+          rw [owedBy_cons] at hw'
+          have : (row.fill r a).owes r = false := fill_owes_self row.slots r a
+          simp only [this, Bool.false_eq_true, if_false] at hw'
+          refine ⟨by rw [owedBy_cons]; split <;> simp [hw'], ?_⟩
+          have := hw.1 w' (owedBy_sub tl r w' hw')
+          omega
+      · simp at h
+    · rename_i hwid
+      cases hc : credit w r a tl with
+      | none => simp [hc] at h
+      | some tl' =>
+        simp only [hc, Option.map_some, Option.some.injEq] at h; subst h
+        obtain ⟨h1, h2⟩ := ih hc hw.2
+        constructor
+        · intro r' hne
+          rw [owedBy_cons, owedBy_cons, h1 r' hne]
+        · intro w' hw'
+          rw [owedBy_cons] at hw' ⊢
+          split at hw'
+          · rename_i ho
+            simp only [List.mem_cons] at hw'
+            rcases hw' with e | e
+            · subst e; simp [ho]; exact hwid
+            · have := h2 w' e
+              simp [ho, this.1]; exact this.2
+          · rename_i ho
+            have := h2 w' hw'
+            simp [ho, this.1]; exact this.2
+
+/-- A row of write `w` that owes `r` is found by `credit`. -/
+theorem credit_some_of_mem {w : Nat} {r : RId} (a : Fill) {rows : List SRow} (h : w ∈ owedBy rows r)
+    (hw : (rows.map (·.wid)).Pairwise (· < ·)) : ∃ rows', credit w r a rows = some rows' := by
+  induction rows with
+  | nil => simp [owedBy] at h
+  | cons row tl ih =>
+    simp only [List.map_cons, List.pairwise_cons] at hw
+    rw [owedBy_cons] at h
+    simp only [credit]
+    by_cases hwid : row.wid = w
+    · rw [if_pos hwid]
+      by_cases ho : row.owes r = true
+      · simp [ho]
+      · exfalso
+        simp only [ho, Bool.false_eq_true, if_false] at h
+        have := hw.1 w (owedBy_sub tl r w h)
+        omega
+    · rw [if_neg hwid]
+      have hm : w ∈ owedBy tl r := by
+        split at h
+        · simp only [List.mem_cons] at h
+          rcases h with e | e
+          · exact absurd e.symm hwid
+          · exact e
+        · exact h
+      obtain ⟨t', ht⟩ := ih hm hw.2
+      exact ⟨row :: t', by simp [ht]⟩
+
+/-- `(*Writer).receive(a, r, l, w)` against `arrive s w r a`: the response is credited to the
+row of write `w` on both sides; the model's extra test of the link generation agrees whenever
+that row still has a slot of `r` (`hE`). -/
+theorem sim_arrive {m : W} {s : S} (w l : Nat) (r : RId) (a : Ans)
+    (hre : m.readers = s.linked) (hro : m.rows = s.rows.map SRow.cells) (hwr : m.writes = s.rows.map (·.wid))
+    (hdo : m.done = s.done) (hll : m.links.length = m.readers.length) (hI : Core s)
+    (hE : hasSlot s.rows w r → linkOf m r = some l) :
+    (receive m a r l w).2 = (arrive s w r a).2 ∧
+    (receive m a r l w).1 = { m with rows := (arrive s w r a).1.rows.map SRow.cells,
+                                     writes := (arrive s w r a).1.rows.map (·.wid) } ∧
+    Core (arrive s w r a).1 ∧
     (∀ r', r' ≠ r → owedBy (arrive s w r a).1.rows r' = owedBy s.rows r') ∧
-    owedBy (arrive s w r a).1.rows r =
-      (if some g = linkOf m r then (owedBy s.rows r).tail else owedBy s.rows r) := by
+    (∀ w' ∈ owedBy (arrive s w r a).1.rows r, w' ∈ owedBy s.rows r ∧ w' ≠ w) ∧
+    (∀ w' r', hasSlot (arrive s w r a).1.rows w' r' → hasSlot s.rows w' r') := by
   have hnd := hI.nodup
   have hrows := hI.rows
   have hhead := hI.head
-  -- the three ways in which nothing happens
-  have nothing : (receive m a r g).2 = Out.mk (.ok false) [] [] → (receive m a r g).1 = m →
-      arrive s w r a = (s, Out.mk (.ok false) [] []) → ¬ some g = linkOf m r →
-      (receive m a r g).2 = (arrive s w r a).2 ∧
-      (receive m a r g).1 = { m with rows := (arrive s w r a).1.rows.map SRow.cells } ∧
-      Inv (arrive s w r a).1 ∧
+  have nothing : (receive m a r l w).2 = Out.mk (.ok false) [] [] → (receive m a r l w).1 = m →
+      arrive s w r a = (s, Out.mk (.ok false) [] []) → w ∉ owedBy s.rows r →
+      (receive m a r l w).2 = (arrive s w r a).2 ∧
+      (receive m a r l w).1 = { m with rows := (arrive s w r a).1.rows.map SRow.cells,
+                                       writes := (arrive s w r a).1.rows.map (·.wid) } ∧
+      Core (arrive s w r a).1 ∧
       (∀ r', r' ≠ r → owedBy (arrive s w r a).1.rows r' = owedBy s.rows r') ∧
-      owedBy (arrive s w r a).1.rows r =
-        (if some g = linkOf m r then (owedBy s.rows r).tail else owedBy s.rows r) := by
+      (∀ w' ∈ owedBy (arrive s w r a).1.rows r, w' ∈ owedBy s.rows r ∧ w' ≠ w) ∧
+      (∀ w' r', hasSlot (arrive s w r a).1.rows w' r' → hasSlot s.rows w' r') := by
     intro h1 h2 h3 h4
     rw [h1, h2, h3]
-    exact ⟨rfl, (W_rows_self hro).symm, hI, fun _ _ => rfl, by rw [if_neg h4]⟩
+    exact ⟨rfl, (W_rows_self hro hwr).symm, hI, fun _ _ => rfl,
+      fun w' hw' => ⟨hw', fun e => h4 (e ▸ hw')⟩, fun _ _ h => h⟩
   by_cases hd : s.done = true
-  · have hl := hI.fin hd
-    have hmd : m.done = true := hdo.trans hd
-    have hno : linkOf m r = none := by
-      rw [linkOf_eq, hre, hl]; simp [linkAt]
+  · have hmd : m.done = true := hdo.trans hd
     apply nothing
     · simp [receive, receiveWith, hmd]
     · simp [receive, receiveWith, hmd]
     · simp [arrive, hd]
-    · rw [hno]; simp
+    · rw [hI.finRows hd]; simp [owedBy]
   have hd' : s.done = false := by simpa using hd
   have hmd : m.done = false := hdo.trans hd'
   by_cases hm : r ∈ s.linked
   rotate_left
   · have hi : indexOf r m.readers = none := by rw [hre]; exact indexOf_none.2 hm
-    have hno : linkOf m r = none := by simp [linkOf, hi]
     apply nothing
     · simp [receive, receiveWith, hmd, hi]
     · simp [receive, receiveWith, hmd, hi]
     · simp [arrive, hd', hm]
-    · rw [hno]; simp
+    · rw [owedBy_not_linked hrows.pref hm]; simp
   obtain ⟨i, hi⟩ := indexOf_some_of_mem hm
   have hi' : indexOf r m.readers = some i := by rw [hre]; exact hi
   have hilt : i < m.links.length := by rw [hll, hre]; exact indexOf_lt hi
-  obtain ⟨l, hlk⟩ : ∃ l, m.links[i]? = some l := ⟨m.links[i], List.getElem?_eq_getElem hilt⟩
-  have hlo : linkOf m r = some l := by simp [linkOf, hi', hlk]
-  rw [hlo] at hq ⊢
-  by_cases hg : g = l
-  rotate_left
-  · have hne : ¬ some g = some l := by simpa using hg
-    rw [if_neg hne] at hq
-    have hcr : credit w r (some a) s.rows = none := by
-      cases hc : credit w r (some a) s.rows with
-      | none => rfl
-      | some rows' => exact absurd (credit_mem hc) hq
-    have hlg : (l != g) = true := by simpa using fun e => hg e.symm
-    have := nothing (by simp [receive, receiveWith, hmd, hi', hlk, hlg]) (by simp [receive, receiveWith, hmd, hi', hlk, hlg])
-      (by simp [arrive, hd', hm, hcr]) (by rw [hlo]; exact hne)
-    rw [hlo] at this
-    exact this
-  subst hg
-  rw [if_pos rfl] at hq ⊢
-  obtain ⟨ob', hl⟩ := hq
-  have hlg : (g != g) = false := by simp
-  have hmf := mfill_cfirst (some a) hrows.pref hnd hi
-  obtain ⟨rows', hcf⟩ := cfirst_isSome (some a) hl
-  have hcr := credit_eq_cfirst (some a) hrows.wids hl
-  rw [hcf] at hcr
-  rw [hcf] at hmf
-  obtain ⟨e1, e2, e3, e4⟩ := cfirst_effect hcf
-  have hrows' : RowsOK s.linked s.nextW rows' := hrows.of_map_eq e3 e4
-  have hinv : Inv (arrived s rows') :=
-    ⟨hnd, hrows'.flush, flush_head rows', by simp [arrived, hd'], hI.owedLt⟩
-  have harr : arrive s w r a = (arrived s rows', Out.mk (.ok true) (WriterSpec.flush rows').2.1 []) := by
-    simp [arrive, arrived, hd', hm, hcr]
-  rw [harr]
-  have hmodel : (receive m a r g).2 = Out.mk (.ok true) (WriterSpec.flush rows').2.1 [] ∧
-      (receive m a r g).1 = { m with rows := (WriterSpec.flush rows').1.map SRow.cells } := by
-    cases hih : indexOfHead i (s.rows.map SRow.cells) with
-    | panic => exact absurd hih (indexOfHead_ne_panic _ _)
-    | notFound =>
-      have := indexOfHead_notFound (some a) hih
-      rw [hmf] at this; simp at this
-    | found h =>
-      obtain ⟨mrows', hset, hmf', hne0⟩ := indexOfHead_found (some a) hih
-      rw [hmf] at hmf'
-      simp only [Option.map_some, Option.some.injEq] at hmf'
-      subst hmf'
-      by_cases h0 : h = 0
-      · have hfl := mflush_eq rows'
-        subst h0
-        simp [receive, receiveWith, hmd, hi', hlk, hlg, hro, hih, hset, hfl]
-      · obtain ⟨row, rest, rest', hre1, _, hre'⟩ := hne0 h0
-        have hflush : WriterSpec.flush rows' = (rows', [], []) := by
-          cases hs : s.rows with
-          | nil => simp [hs] at hre1
-          | cons srow srest =>
-            have hh := hhead srow srest hs
-            simp only [hs, List.map_cons, List.cons.injEq] at hre1
-            cases rows' with
-            | nil => simp at hre'
-            | cons srow' srest' =>
-              simp only [List.map_cons, List.cons.injEq] at hre'
-              apply flush_of_head
-              rw [hre'.1, ← hre1.1]; exact hh
-        simp [receive, receiveWith, hmd, hi', hlk, hlg, hro, hih, hset, h0, hflush]
-  refine ⟨hmodel.1, hmodel.2, hinv, ?_, ?_⟩
-  · intro r' hne
-    show owedBy (WriterSpec.flush rows').1 r' = _
-    rw [owedBy_flush, e2 r' hne]
-  · show owedBy (WriterSpec.flush rows').1 r = _
-    rw [owedBy_flush, e1]
+  obtain ⟨l', hlk⟩ : ∃ l', m.links[i]? = some l' := ⟨m.links[i], List.getElem?_eq_getElem hilt⟩
+  have hlo : linkOf m r = some l' := by simp [linkOf, hi', hlk]
+  have hwf := wfill_credit w (some a) hrows.pref hnd hi hrows.wids
+  have hlen : m.writes.length = m.rows.length := by rw [hwr, hro]; simp
+  cases hcr : credit w r (some a) s.rows with
+  | none =>
+    rw [hcr] at hwf
+    have harr : arrive s w r a = (s, Out.mk (.ok false) [] []) := by simp [arrive, hd', hm, hcr]
+    have hnot : w ∉ owedBy s.rows r := by
+      intro hmem
+      obtain ⟨rows', hc⟩ := credit_some_of_mem (some a) hmem hrows.wids
+      rw [hc] at hcr; cases hcr
+    by_cases hg : l' = l
+    · subst hg
+      have hlg : (l' != l') = false := by simp
+      cases hih : indexOfWrite i w m.writes m.rows with
+      | panic => exact absurd hih (indexOfWrite_ne_panic _ _ _ _ hlen)
+      | notFound =>
+        exact nothing (by simp [receive, receiveWith, hmd, hi', hlk, hlg, hih])
+          (by simp [receive, receiveWith, hmd, hi', hlk, hlg, hih]) harr hnot
+      | found h =>
+        obtain ⟨mrows', _, hmf', _⟩ := indexOfWrite_found (some a) hih
+        rw [hwr, hro, hwf] at hmf'; simp at hmf'
+    · have hlg : (l' != l) = true := by simpa using hg
+      exact nothing (by simp [receive, receiveWith, hmd, hi', hlk, hlg])
+        (by simp [receive, receiveWith, hmd, hi', hlk, hlg]) harr hnot
+  | some rows' =>
+    rw [hcr] at hwf
+    obtain ⟨e3, e4, row0, hrow0, hwid0, howes0⟩ := credit_shape hcr
+    have hslot : hasSlot s.rows w r := by
+      refine ⟨row0, hrow0, hwid0, ?_⟩
+      rw [owes_def] at howes0
+      simp only [owesS, List.any_eq_true] at howes0
+      obtain ⟨p, hp, hpp⟩ := howes0
+      simp only [SRow.readers, List.mem_map]
+      simp only [Bool.and_eq_true, beq_iff_eq] at hpp
+      exact ⟨p, hp, hpp.1⟩
+    have hl : l' = l := by
+      have := hE hslot
+      rw [hlo] at this; injection this
+    subst hl
+    have hlg : (l' != l') = false := by simp
+    have hrows' : RowsOK s.linked s.nextW rows' := hrows.of_map_eq e3 e4
+    have hcore : Core (arrived s rows') :=
+      ⟨hnd, hrows'.flush, flush_head rows', by simp [arrived, hd'], by simp [arrived, hd']⟩
+    have harr : arrive s w r a = (arrived s rows', Out.mk (.ok true) (WriterSpec.flush rows').2.1 []) := by
+      simp [arrive, arrived, hd', hm, hcr]
+    rw [harr]
+    obtain ⟨o1, o2⟩ := credit_owedBy hcr hrows.wids
+    have hkeys := credit_keys hcr
+    have hmodel : (receive m a r l' w).2 = Out.mk (.ok true) (WriterSpec.flush rows').2.1 [] ∧
+        (receive m a r l' w).1 = { m with rows := (WriterSpec.flush rows').1.map SRow.cells,
+                                          writes := (WriterSpec.flush rows').1.map (·.wid) } := by
+      cases hih : indexOfWrite i w m.writes m.rows with
+      | panic => exact absurd hih (indexOfWrite_ne_panic _ _ _ _ hlen)
+      | notFound =>
+        have := indexOfWrite_notFound (some a) hih
+        rw [hwr, hro, hwf] at this; simp at this
+      | found h =>
+        obtain ⟨mrows', hset, hmf', hne0⟩ := indexOfWrite_found (some a) hih
+        rw [hwr, hro, hwf] at hmf'
+        simp only [Option.map_some, Option.some.injEq] at hmf'
+        subst hmf'
+        by_cases h0 : h = 0
+        · have hfl := mflush_eq rows'
+          have hdrop := flush_wids_drop rows'
+          rw [e4, ← hwr] at hdrop
+          subst h0
+          simp [receive, receiveWith, hmd, hi', hlk, hlg, hih, hset, hfl, hdrop]
+        · obtain ⟨row, rest, rest', hre1, hre'⟩ := hne0 h0
+          rw [hro] at hre1
+          have hflush : WriterSpec.flush rows' = (rows', [], []) := by
+            cases hs : s.rows with
+            | nil => simp [hs] at hre1
+            | cons srow srest =>
+              have hh := hhead srow srest hs
+              simp only [hs, List.map_cons, List.cons.injEq] at hre1
+              cases rows' with
+              | nil => simp at hre'
+              | cons srow' srest' =>
+                simp only [List.map_cons, List.cons.injEq] at hre'
+                apply flush_of_head
+                rw [hre'.1, ← hre1.1]; exact hh
+          have hw2 : List.map (fun x => x.wid) rows' = m.writes := e4.trans hwr.symm
+          simp [receive, receiveWith, hmd, hi', hlk, hlg, hih, hset, h0, hflush, hw2]
+    refine ⟨hmodel.1, hmodel.2, hcore, ?_, ?_, ?_⟩
+    · intro r' hne
+      show owedBy (WriterSpec.flush rows').1 r' = _
+      rw [owedBy_flush, o1 r' hne]
+    · intro w' hw'
+      have hw'' : w' ∈ owedBy (WriterSpec.flush rows').1 r := hw'
+      rw [owedBy_flush] at hw''
+      exact o2 w' hw''
+    · intro w' r' hs
+      have hs' : hasSlot (WriterSpec.flush rows').1 w' r' := hs
+      have := hasSlot_flush hs'
+      rw [hasSlot_keys, hkeys, ← hasSlot_keys] at this
+      exact this
 
 /-! ### The individual steps -/
+
+theorem hasSlot_linked {rows : List SRow} {linked : List RId} {w : Nat} {r : RId}
+    (hp : ∀ p ∈ rows.map SRow.readers, p <+: linked) (h : hasSlot rows w r) : r ∈ linked := by
+  obtain ⟨row, hm, _, hr⟩ := h
+  exact (hp row.readers (List.mem_map_of_mem hm)).subset hr
+
+def linkedM (m : W) (r : RId) : W :=
+  { m with linked := m.linked + 1, readers := m.readers ++ [r], links := m.links ++ [m.linked + 1] }
 
 theorem sim_link {m : W} {s : S} (hR : Rel m s) (r : RId) :
     (Writer.step m (.link r)).2 = (WriterSpec.step s (.link r)).2 ∧
@@ -498,45 +617,28 @@ theorem sim_link {m : W} {s : S} (hR : Rel m s) (r : RId) :
     have e2 : WriterSpec.step s (.link r) = (s, Out.mk (.ok false) [] []) := by simp [WriterSpec.step, hd', hm]
     rw [e1, e2]; exact ⟨rfl, hR⟩
   have hm' : r ∉ m.readers := hR.readers ▸ hm
-  have e1 : Writer.step m (.link r) =
-      ({ m with linked := m.linked + 1, readers := m.readers ++ [r], links := m.links ++ [m.linked + 1] },
-       Out.mk (.ok true) [] []) := by simp [Writer.step, stepWith, hmd, hm']
+  have e1 : Writer.step m (.link r) = (linkedM m r, Out.mk (.ok true) [] []) := by
+    simp [Writer.step, stepWith, hmd, hm', linkedM]
   have e2 : WriterSpec.step s (.link r) = ({ s with linked := s.linked ++ [r] }, Out.mk (.ok true) [] []) := by
     simp [WriterSpec.step, hd', hm]
   rw [e1, e2]
   refine ⟨rfl, ?_⟩
   have hI := hR.inv
-  refine ⟨by simp [hR.readers], hR.rows, hR.done, hR.closed, by simp [hR.linksLen], ?_, ?_, hR.pendClosed, hR.dropsOpen, ?_, ?_⟩
-  · intro g hg
-    simp only [List.mem_append, List.mem_singleton] at hg
-    rcases hg with hg | hg
-    · exact Nat.le_succ_of_le (hR.linksLe g hg)
-    · simp [hg]
-  · intro r' g hg
-    exact Nat.le_succ_of_le (hR.fifoLe r' g hg)
-  · intro r'
-    show FifoOK (linkOf { m with linked := m.linked + 1, readers := m.readers ++ [r], links := m.links ++ [m.linked + 1] } r')
-      (fifo m r') (s.owed r') (owedBy s.rows r')
-    rw [linkOf_eq]
-    show FifoOK (linkAt r' (m.readers ++ [r]) (m.links ++ [m.linked + 1])) _ _ _
-    rw [linkAt_append _ hR.linksLen]
-    have hold := hR.fifo r'
+  refine ⟨by simp [linkedM, hR.readers], hR.rows, hR.writes, hR.written, hR.done, hR.closed, by simp [linkedM, hR.linksLen],
+    hR.pendClosed, hR.dropsOpen, hR.queue, hR.flight, ?_, ?_⟩
+  · intro r' e he hs
+    have he' : e ∈ entries m r' := he
+    have hs' : hasSlot s.rows e.2 r' := hs
+    have hl := hasSlot_linked hI.rows.pref hs'
+    have hne : ¬ r = r' := fun h => hm (h ▸ hl)
+    have hold := hR.ent r' e he' hs'
+    have : linkOf (linkedM m r) r' = linkAt r' (m.readers ++ [r]) (m.links ++ [m.linked + 1]) := by
+      rw [linkOf_eq]; rfl
+    rw [this, linkAt_append _ hR.linksLen]
     rw [linkOf_eq] at hold
-    by_cases e : r = r'
-    · subst e
-      rw [linkAt_not_mem _ hm']
-      simp only [if_true]
-      have h0 := owedBy_not_linked hI.rows.pref hm
-      rw [h0] at hold ⊢
-      apply fifoOK_stale (fifoOK_len hold)
-      intro g hg
-      have := hR.fifoLe r g hg
-      simp only [ne_eq, Option.some.injEq]
-      omega
-    · cases hl : linkAt r' m.readers m.links with
-      | some l => rw [hl] at hold; simpa using hold
-      | none => rw [hl] at hold; simpa [e] using hold
-  · refine ⟨?_, ⟨?_, hI.rows.chain, hI.rows.wids, hI.rows.widlt⟩, hI.head, by simp [hd'], hI.owedLt⟩
+    rw [hold]
+  · refine ⟨⟨?_, ⟨?_, hI.rows.chain, hI.rows.wids, hI.rows.widlt⟩, hI.head, by simp [hd'], hI.finRows⟩,
+      hI.owedLt, hI.flightLt, hI.backed⟩
     · show (s.linked ++ [r]).Nodup
       rw [List.nodup_append]
       refine ⟨hI.nodup, by simp, ?_⟩
@@ -546,6 +648,20 @@ theorem sim_link {m : W} {s : S} (hR : Rel m s) (r : RId) :
       exact fun e => hm (e ▸ ha)
     · intro p hp
       exact (hI.rows.pref p hp).trans (List.prefix_append _ _)
+
+def unlinkedM (m : W) (i : Nat) : W :=
+  { m with readers := m.readers.eraseIdx i, links := m.links.eraseIdx i,
+           rows := (Writer.flush (eraseCol i m.rows)).1,
+           writes := m.writes.drop (Writer.flush (eraseCol i m.rows)).2.length }
+
+theorem hasSlot_drop {rows : List SRow} {r r' : RId} {w : Nat} (h : hasSlot (rows.map (·.drop r)) w r') :
+    hasSlot rows w r' ∧ r' ≠ r := by
+  obtain ⟨row', hm, h1, h2⟩ := h
+  obtain ⟨row, hrow, rfl⟩ := List.mem_map.1 hm
+  have : (row.drop r).readers = row.readers.filter (· ≠ r) := drop_readers row.slots r
+  rw [this] at h2
+  simp only [List.mem_filter, decide_eq_true_eq] at h2
+  exact ⟨⟨row, hrow, h1, h2.1⟩, h2.2⟩
 
 theorem sim_unlink {m : W} {s : S} (hR : Rel m s) (r : RId) :
     (Writer.step m (.unlink r)).2 = (WriterSpec.step s (.unlink r)).2 ∧
@@ -577,17 +693,18 @@ theorem sim_unlink {m : W} {s : S} (hR : Rel m s) (r : RId) :
   have hfl := mflush_eq (s.rows.map (·.drop r))
   have hrd := filter_ne_eq_eraseIdx hi hI.nodup
   have e1 : Writer.step m (.unlink r) =
-      ({ m with readers := m.readers.eraseIdx i, links := m.links.eraseIdx i,
-                rows := (Writer.flush (eraseCol i m.rows)).1 },
-       Out.mk (.ok true) (Writer.flush (eraseCol i m.rows)).2 []) := by
-    simp [Writer.step, stepWith, hmd, hi', hill]
+      (unlinkedM m i, Out.mk (.ok true) (Writer.flush (eraseCol i m.rows)).2 []) := by
+    simp [Writer.step, stepWith, hmd, hi', hill, unlinkedM]
   have e2 : WriterSpec.step s (.unlink r) =
       ({ s with linked := s.linked.filter (· ≠ r), rows := (WriterSpec.flush (s.rows.map (·.drop r))).1,
                 emittedIds := s.emittedIds ++ (WriterSpec.flush (s.rows.map (·.drop r))).2.2 },
        Out.mk (.ok true) (WriterSpec.flush (s.rows.map (·.drop r))).2.1 []) := by
     simp [WriterSpec.step, hd', hm]
-  rw [e1, e2, hR.rows, hcols, hfl]
-  refine ⟨rfl, ?_⟩
+  have hmrows : Writer.flush (eraseCol i m.rows) =
+      ((WriterSpec.flush (s.rows.map (·.drop r))).1.map SRow.cells, (WriterSpec.flush (s.rows.map (·.drop r))).2.1) := by
+    rw [hR.rows, hcols, hfl]
+  rw [e1, e2]
+  refine ⟨by rw [hmrows], ?_⟩
   have hreaders : (s.rows.map (·.drop r)).map SRow.readers = (s.rows.map SRow.readers).map (·.filter (· ≠ r)) := by
     simp only [List.map_map]
     apply List.map_congr_left
@@ -604,34 +721,56 @@ theorem sim_unlink {m : W} {s : S} (hR : Rel m s) (r : RId) :
     · rw [hreaders, List.pairwise_map]
       exact hI.rows.chain.imp fun h => h.filter _
   have hnotin : r ∉ s.linked.filter (· ≠ r) := by simp
-  refine ⟨?_, rfl, hR.done, hR.closed, ?_, ?_, hR.fifoLe, hR.pendClosed, hR.dropsOpen, ?_, ?_⟩
+  refine ⟨?_, ?_, ?_, hR.written, hR.done, hR.closed, ?_, hR.pendClosed, hR.dropsOpen, hR.queue, hR.flight, ?_, ?_⟩
   · show m.readers.eraseIdx i = s.linked.filter (· ≠ r)
     rw [hrd, hR.readers]
+  · show (Writer.flush (eraseCol i m.rows)).1 = _
+    rw [hmrows]
+  · show m.writes.drop (Writer.flush (eraseCol i m.rows)).2.length = _
+    rw [hmrows, hR.writes, ← hwid]
+    exact flush_wids_drop _
   · show (m.links.eraseIdx i).length = (m.readers.eraseIdx i).length
     rw [List.length_eraseIdx, List.length_eraseIdx, hR.linksLen]
-  · intro g hg
-    exact hR.linksLe g (List.mem_of_mem_eraseIdx hg)
-  · intro r'
-    have hlo : ∀ m' : W, m'.readers = m.readers.eraseIdx i → m'.links = m.links.eraseIdx i →
-        linkOf m' r' = linkAt r' (m.readers.eraseIdx i) (m.links.eraseIdx i) := by
-      intro m' h1 h2; rw [linkOf_eq, h1, h2]
-    rw [hlo _ rfl rfl]
-    show FifoOK _ (fifo m r') (s.owed r') (owedBy (WriterSpec.flush (s.rows.map (·.drop r))).1 r')
-    have hold := hR.fifo r'
+  · intro r' e he hs
+    have he' : e ∈ entries m r' := he
+    have hs' : hasSlot (WriterSpec.flush (s.rows.map (·.drop r))).1 e.2 r' := hs
+    obtain ⟨hs'', hne⟩ := hasSlot_drop (hasSlot_flush hs')
+    have hold := hR.ent r' e he' hs''
+    have : linkOf (unlinkedM m i) r' = linkAt r' (m.readers.eraseIdx i) (m.links.eraseIdx i) := by
+      rw [linkOf_eq]; rfl
+    rw [this, linkAt_eraseIdx _ hi' hne, ← linkOf_eq]
+    exact hold
+  · refine ⟨⟨hI.nodup.filter _, hok.flush, flush_head _, by simp [hd'], by simp [hd']⟩, hI.owedLt, hI.flightLt, ?_⟩
+    intro r' w hw
+    have hw' : w ∈ owedBy (WriterSpec.flush (s.rows.map (·.drop r))).1 r' := hw
+    rw [owedBy_flush] at hw'
     by_cases e : r' = r
     · subst e
-      have hnr : r' ∉ m.readers.eraseIdx i := by rw [hR.readers, ← hrd]; exact hnotin
-      rw [linkAt_not_mem _ hnr, owedBy_not_linked hok.flush.pref hnotin]
-      exact fifoOK_stale (fifoOK_len hold) (by simp)
-    · rw [linkAt_eraseIdx _ hi' e, owedBy_flush, drop_owedBy _ e, ← linkOf_eq]
-      exact hold
-  · exact ⟨hI.nodup.filter _, hok.flush, flush_head _, by simp [hd'], hI.owedLt⟩
+      rw [owedBy_not_linked hok.pref hnotin] at hw'
+      cases hw'
+    · rw [drop_owedBy _ e] at hw'
+      exact hI.backed r' w hw'
 
 theorem newRow_eq (s : S) : newRow s.closed s.linked = (newSRow s).cells := by
   simp [newSRow, SRow.cells, newRow]
 
 theorem newSRow_owes (s : S) (r : RId) : (newSRow s).owes r = (decide (r ∈ s.linked) && !s.closed r) := by
   rw [owes_def]; exact newSlots_owes s.closed s.linked r
+
+def wroteM (m : W) : W :=
+  { m with pend := fun r => if r ∈ accepting m.closed m.readers then m.pend r ++ (linkOf m r).toList.map (·, m.written)
+                            else m.pend r,
+           rows := m.rows ++ [newRow m.closed m.readers], writes := m.writes ++ [m.written],
+           written := m.written + 1 }
+
+theorem entry_lt {m : W} {s : S} (hR : Rel m s) (r : RId) (e : Nat × Nat) (he : e ∈ entries m r) : e.2 < s.nextW := by
+  simp only [entries, List.mem_append, List.mem_map] at he
+  rcases he with he | ⟨x, hx, rfl⟩
+  · apply hR.inv.owedLt r
+    rw [← hR.queue r]
+    exact List.mem_map_of_mem he
+  · have := hR.inv.flightLt r (x.1, x.2.2) (by rw [← hR.flight r]; exact List.mem_map.2 ⟨x, hx, rfl⟩)
+    exact this
 
 theorem sim_write {m : W} {s : S} (hR : Rel m s) (v : Nat) :
     (Writer.step m (.write v)).2 = (WriterSpec.step s (.write v)).2 ∧
@@ -675,76 +814,78 @@ theorem sim_write {m : W} {s : S} (hR : Rel m s) (v : Nat) :
        Out.mk (.cnt (accepting s.closed s.linked).length) [] ((accepting s.closed s.linked).map fun r => (r, v))) := by
     simp [WriterSpec.step, hd', hacc, newSRow]
   have e1 : Writer.step m (.write v) =
-      ({ m with pend := fun r => if r ∈ accepting m.closed m.readers then m.pend r ++ (linkOf m r).toList else m.pend r,
-                rows := m.rows ++ [newRow m.closed m.readers] },
+      (wroteM m,
        Out.mk (.cnt (accepting m.closed m.readers).length) [] ((accepting m.closed m.readers).map fun r => (r, v))) := by
-    simp [Writer.step, stepWith, hmd, hne, hpanic, hacc']
+    simp [Writer.step, stepWith, hmd, hne, hpanic, hacc', wroteM]
   rw [e1, e2]
   refine ⟨by rw [hR.closed, hR.readers], ?_⟩
   have hreaders : (newSRow s).readers = s.linked := by
     simp [newSRow, SRow.readers, List.map_map, Function.comp_def]
   have hmemacc : ∀ r, r ∈ accepting m.closed m.readers ↔ r ∈ s.linked ∧ s.closed r = false := by
     intro r; rw [hR.closed, hR.readers]; exact mem_accepting
-  refine ⟨hR.readers, ?_, hR.done, hR.closed, hR.linksLen, hR.linksLe, ?_, ?_, hR.dropsOpen, ?_, ?_⟩
+  have hfifo : ∀ r, fifo (wroteM m) r =
+      if r ∈ accepting m.closed m.readers then fifo m r ++ (linkOf m r).toList.map (·, m.written) else fifo m r := by
+    intro r
+    by_cases hr : r ∈ accepting m.closed m.readers
+    · have hc : m.closed r = false := by rw [hR.closed]; exact ((hmemacc r).1 hr).2
+      simp [fifo, wroteM, hr, hc]
+    · by_cases hc : m.closed r = true
+      · simp [fifo, wroteM, hr, hc]
+      · have hc' : m.closed r = false := by simpa using hc
+        simp [fifo, wroteM, hr, hc']
+  have hlink : ∀ r, r ∈ accepting m.closed m.readers → ∃ g, linkOf m r = some g := by
+    intro r hr
+    rw [linkOf_eq]; exact linkAt_some_of_mem (hR.readers ▸ ((hmemacc r).1 hr).1) hR.linksLen
+  refine ⟨hR.readers, ?_, ?_, ?_, hR.done, hR.closed, hR.linksLen, ?_, hR.dropsOpen, ?_, hR.flight, ?_, ?_⟩
   · show m.rows ++ [newRow m.closed m.readers] = (s.rows ++ [newSRow s]).map SRow.cells
     rw [hR.rows, hR.closed, hR.readers, newRow_eq]; simp
-  · intro r g hg
-    by_cases hc : m.closed r = true
-    · have : fifo m r = m.drops r := by simp [fifo, hc]
-      exact hR.fifoLe r g (by rw [this]; simpa [fifo, hc] using hg)
-    · have hc' : m.closed r = false := by simpa using hc
-      have hold : fifo m r = m.pend r := by simp [fifo, hc']
-      simp only [fifo, hc', Bool.false_eq_true, if_false] at hg
-      split at hg
-      · simp only [List.mem_append] at hg
-        rcases hg with hg | hg
-        · exact hR.fifoLe r g (by rw [hold]; exact hg)
-        · cases hl : linkOf m r with
-          | none => simp [hl] at hg
-          | some l =>
-            simp only [hl, Option.toList_some, List.mem_singleton] at hg
-            subst hg
-            rw [linkOf_eq] at hl
-            exact hR.linksLe g (linkAt_mem hl)
-      · exact hR.fifoLe r g (by rw [hold]; exact hg)
-  · intro r hc
+  · show m.writes ++ [m.written] = (s.rows ++ [newSRow s]).map (·.wid)
+    rw [hR.writes, hR.written]; simp [newSRow]
+  · show m.written + 1 = s.nextW + 1
+    rw [hR.written]
+  · intro r hc0
+    have hc : m.closed r = true := hc0
     have : r ∉ accepting m.closed m.readers := by
       intro h; have := (hmemacc r).1 h; rw [hR.closed] at hc; rw [hc] at this; exact absurd this.2 (by simp)
-    show (if r ∈ accepting m.closed m.readers then m.pend r ++ (linkOf m r).toList else m.pend r) = []
+    show (if r ∈ accepting m.closed m.readers then m.pend r ++ (linkOf m r).toList.map (·, m.written) else m.pend r) = []
     rw [if_neg this]; exact hR.pendClosed r hc
   · intro r
-    have hold := hR.fifo r
-    show FifoOK (linkOf m r)
-      (if m.closed r then m.drops r
-        else (if r ∈ accepting m.closed m.readers then m.pend r ++ (linkOf m r).toList else m.pend r))
-      (if r ∈ accepting s.closed s.linked then s.owed r ++ [s.nextW] else s.owed r)
-      (owedBy (s.rows ++ [newSRow s]) r)
-    rw [owedBy_append, owedBy_cons, newSRow_owes]
-    have hnil : owedBy [] r = [] := rfl
-    by_cases hr : r ∈ s.linked ∧ s.closed r = false
-    · have h1 : r ∈ accepting m.closed m.readers := (hmemacc r).2 hr
-      have h2 : r ∈ accepting s.closed s.linked := mem_accepting.2 hr
-      have hc : m.closed r = false := by rw [hR.closed]; exact hr.2
-      obtain ⟨g, hg⟩ : ∃ g, linkOf m r = some g := by
-        rw [linkOf_eq]; exact linkAt_some_of_mem (hR.readers ▸ hr.1) hR.linksLen
-      simp only [fifo, hc, Bool.false_eq_true, if_false] at hold
-      simp only [hc, Bool.false_eq_true, if_false, h1, h2, if_true, hg, Option.toList_some, hr.1, hr.2,
-        decide_true, Bool.not_false, Bool.and_self, hnil]
-      rw [hg] at hold
-      exact fifoOK_push hold rfl (fun w' hw' => Nat.ne_of_lt (hI.owedLt r w' hw'))
-    · have h1 : r ∉ accepting m.closed m.readers := fun h => hr ((hmemacc r).1 h)
-      have h2 : r ∉ accepting s.closed s.linked := fun h => hr (mem_accepting.1 h)
-      have hno : (decide (r ∈ s.linked) && !s.closed r) = false := by
-        by_cases hl : r ∈ s.linked
-        · have : s.closed r = true := by
-            cases hc : s.closed r with
-            | true => rfl
-            | false => exact absurd ⟨hl, hc⟩ hr
-          simp [this]
-        · simp [hl]
-      simp only [h1, h2, if_false, hno, Bool.false_eq_true, hnil, List.append_nil]
-      exact hold
-  · refine ⟨hI.nodup, ⟨?_, ?_, ?_, ?_⟩, ?_, by simp [hd'], ?_⟩
+    show (fifo (wroteM m) r).map Prod.snd = (if r ∈ accepting s.closed s.linked then s.owed r ++ [s.nextW] else s.owed r)
+    rw [hfifo]
+    by_cases hr : r ∈ accepting m.closed m.readers
+    · have hr' : r ∈ accepting s.closed s.linked := mem_accepting.2 ((hmemacc r).1 hr)
+      obtain ⟨g, hg⟩ := hlink r hr
+      simp [hr, hr', hg, hR.queue r, hR.written]
+    · have hr' : r ∉ accepting s.closed s.linked := fun h => hr ((hmemacc r).2 (mem_accepting.1 h))
+      simp [hr, hr', hR.queue r]
+  · intro r e he hs
+    have hlo : linkOf (wroteM m) r = linkOf m r := rfl
+    rw [hlo]
+    have he' : e ∈ fifo (wroteM m) r ++ (m.flight r).map (·.2) := he
+    have hs' : hasSlot (s.rows ++ [newSRow s]) e.2 r := hs
+    rw [hfifo] at he'
+    have hold : e ∈ entries m r → linkOf m r = some e.1 := by
+      intro hmem
+      have hlt := entry_lt hR r e hmem
+      apply hR.ent r e hmem
+      obtain ⟨row, hm, h1, h2⟩ := hs'
+      simp only [List.mem_append, List.mem_singleton] at hm
+      rcases hm with hm | hm
+      · exact ⟨row, hm, h1, h2⟩
+      · subst hm
+        simp only [newSRow] at h1
+        omega
+    by_cases hr : r ∈ accepting m.closed m.readers
+    · rw [if_pos hr] at he'
+      obtain ⟨g, hg⟩ := hlink r hr
+      simp only [hg, Option.toList_some, List.map_cons, List.map_nil, List.mem_append, List.mem_singleton] at he'
+      rcases he' with (he' | he') | he'
+      · exact hold (by simp [entries, he'])
+      · rw [he', hg]
+      · exact hold (by simp only [entries, List.mem_append]; exact Or.inr he')
+    · rw [if_neg hr] at he'
+      exact hold he'
+  · refine ⟨⟨hI.nodup, ⟨?_, ?_, ?_, ?_⟩, ?_, by simp [hd'], by simp [hd']⟩, ?_, ?_, ?_⟩
     · intro p hp
       simp only [List.map_append, List.mem_append, List.map_cons, List.map_nil, List.mem_singleton] at hp
       rcases hp with hp | hp
@@ -789,97 +930,185 @@ theorem sim_write {m : W} {s : S} (hR : Rel m s) (v : Nat) :
         · exact Nat.lt_succ_of_lt (hI.owedLt r w h)
         · rw [h]; exact Nat.lt_succ_self _
       · exact Nat.lt_succ_of_lt (hI.owedLt r w hw')
+    · intro r e he
+      exact Nat.lt_succ_of_lt (hI.flightLt r e he)
+    · intro r w hw
+      have hw' : w ∈ owedBy (s.rows ++ [newSRow s]) r := hw
+      rw [owedBy_append, owedBy_cons, newSRow_owes] at hw'
+      show w ∈ (if r ∈ accepting s.closed s.linked then s.owed r ++ [s.nextW] else s.owed r) ∨ ∃ a, (a, w) ∈ s.flight r
+      have hnil : owedBy [] r = [] := rfl
+      simp only [List.mem_append] at hw'
+      rcases hw' with hw' | hw'
+      · rcases hI.backed r w hw' with h | h
+        · left; split <;> simp [h]
+        · exact Or.inr h
+      · by_cases hr : r ∈ s.linked ∧ s.closed r = false
+        · have : r ∈ accepting s.closed s.linked := mem_accepting.2 hr
+          simp only [hr.1, hr.2, decide_true, Bool.not_false, Bool.and_self, if_true, hnil, List.mem_singleton] at hw'
+          left; rw [if_pos this, hw']; simp [newSRow]
+        · have hno : (decide (r ∈ s.linked) && !s.closed r) = false := by
+            by_cases hl : r ∈ s.linked
+            · have : s.closed r = true := by
+                cases hc : s.closed r with
+                | true => rfl
+                | false => exact absurd ⟨hl, hc⟩ hr
+              simp [this]
+            · simp [hl]
+          simp [hno, hnil] at hw'
 
-/-- The specification state after reader `r` popped the head of its queue. -/
-def popped (s : S) (r : RId) (rest : List Nat) : S :=
-  { s with owed := fun x => if x = r then rest else s.owed x }
+/-- The specification state with other queues / answers in flight. -/
+def withQ (s : S) (o1 : RId → List Nat) (f1 : RId → List (Ans × Nat)) : S := { s with owed := o1, flight := f1 }
 
-/-- Reader `r` pops the head `(g, w)` of its queue (an answer, or a drop notice being delivered)
-and the writer receives it: `m1` is the model state after the pop. -/
-theorem sim_pop {m m1 : W} {s : S} (hR : Rel m s) (r : RId) (g w : Nat) (gs ws : List Nat) (a : Ans)
-    (h1 : m1.readers = m.readers) (h2 : m1.links = m.links) (h3 : m1.linked = m.linked)
-    (h4 : m1.rows = m.rows) (h5 : m1.done = m.done) (h6 : m1.closed = m.closed)
-    (h7 : fifo m1 r = gs) (h8 : ∀ r', r' ≠ r → fifo m1 r' = fifo m r')
-    (h9 : ∀ r', m1.closed r' = true → m1.pend r' = []) (h10 : ∀ r', m1.closed r' = false → m1.drops r' = [])
-    (hf : fifo m r = g :: gs) (ho : s.owed r = w :: ws) :
-    (receive m1 a r g).2 = (arrive (popped s r ws) w r a).2 ∧
-      Rel (receive m1 a r g).1 (arrive (popped s r ws) w r a).1 := by
+/-- A response `(a, l, w)` of reader `r` that was one of its entries reaches the writer; `m1`,
+`withQ s o1 f1` are the states after the entry was taken out. -/
+theorem sim_recv {m m1 : W} {s : S} (hR : Rel m s) (r : RId) (l w : Nat) (a : Ans)
+    (o1 : RId → List Nat) (f1 : RId → List (Ans × Nat))
+    (h1 : m1.readers = m.readers) (h2 : m1.links = m.links) (h4 : m1.rows = m.rows) (h4w : m1.writes = m.writes)
+    (h4n : m1.written = m.written) (h5 : m1.done = m.done) (h6 : m1.closed = m.closed)
+    (hq : ∀ x, (fifo m1 x).map Prod.snd = o1 x) (hf : ∀ x, (m1.flight x).map (fun e => (e.1, e.2.2)) = f1 x)
+    (hsub : ∀ x e, e ∈ entries m1 x → e ∈ entries m x) (hmem : (l, w) ∈ entries m r)
+    (h9 : ∀ x, m1.closed x = true → m1.pend x = []) (h10 : ∀ x, m1.closed x = false → m1.drops x = [])
+    (holt : ∀ x, ∀ w' ∈ o1 x, w' < s.nextW) (hflt : ∀ x, ∀ e ∈ f1 x, e.2 < s.nextW)
+    (hback : ∀ x, ∀ w' ∈ owedBy s.rows x, (x = r ∧ w' = w) ∨ w' ∈ o1 x ∨ ∃ a', (a', w') ∈ f1 x) :
+    (receive m1 a r l w).2 = (arrive (withQ s o1 f1) w r a).2 ∧
+      Rel (receive m1 a r l w).1 (arrive (withQ s o1 f1) w r a).1 := by
   have hI := hR.inv
   have hlo : ∀ x, linkOf m1 x = linkOf m x := by intro x; simp [linkOf, h1, h2]
-  have hfo := hR.fifo r
-  rw [hf, ho] at hfo
-  simp only [FifoOK] at hfo
-  have hI1 : Inv (popped s r ws) := by
-    refine ⟨hI.nodup, hI.rows, hI.head, hI.fin, ?_⟩
-    intro x w' hw'
-    have hw'' : w' ∈ (if x = r then ws else s.owed x) := hw'
-    split at hw''
-    · rename_i hx; subst hx; exact hI.owedLt x w' (by rw [ho]; simp [hw''])
-    · exact hI.owedLt x w' hw''
-  have hq : if some g = linkOf m1 r then ∃ ob', owedBy (popped s r ws).rows r = w :: ob'
-      else w ∉ owedBy (popped s r ws).rows r := by
-    rw [hlo]
-    show if some g = linkOf m r then ∃ ob', owedBy s.rows r = w :: ob' else w ∉ owedBy s.rows r
-    split at hfo
-    · rename_i hc; rw [if_pos hc]; obtain ⟨ob', e, _⟩ := hfo; exact ⟨ob', e⟩
-    · rename_i hc; rw [if_neg hc]; exact hfo.1
-  obtain ⟨o1, o2, o3, o4, o5⟩ := sim_arrive (m := m1) (s := popped s r ws) w g r a
-    (by rw [h1]; exact hR.readers) (by rw [h4]; exact hR.rows) (by rw [h5]; exact hR.done)
-    (by rw [h2, h1]; exact hR.linksLen) hI1 hq
-  obtain ⟨f1, f2, f3, f4, f5⟩ := arrive_fields (popped s r ws) w r a
-  refine ⟨o1, ?_⟩
-  rw [o2]
-  refine ⟨?_, rfl, ?_, ?_, ?_, ?_, ?_, h9, h10, ?_, o3⟩
+  have hcore : Core (withQ s o1 f1) := ⟨hI.nodup, hI.rows, hI.head, hI.fin, hI.finRows⟩
+  obtain ⟨p1, p2, p3, p4, p5, p6⟩ := sim_arrive (m := m1) (s := withQ s o1 f1) w l r a
+    (by rw [h1]; exact hR.readers) (by rw [h4]; exact hR.rows) (by rw [h4w]; exact hR.writes)
+    (by rw [h5]; exact hR.done) (by rw [h2, h1]; exact hR.linksLen) hcore
+    (by intro hs; rw [hlo]; exact hR.ent r (l, w) hmem hs)
+  obtain ⟨f1', f2', f3', f4', f5', f6'⟩ := arrive_fields (withQ s o1 f1) w r a
+  refine ⟨p1, ?_⟩
+  rw [p2]
+  refine ⟨?_, rfl, rfl, ?_, ?_, ?_, ?_, h9, h10, ?_, ?_, ?_, ?_⟩
   · show m1.readers = _
-    rw [f1, h1]; exact hR.readers
+    rw [f1', h1]; exact hR.readers
+  · show m1.written = _
+    rw [f5', h4n]; exact hR.written
   · show m1.done = _
-    rw [f2, h5]; exact hR.done
+    rw [f2', h5]; exact hR.done
   · show m1.closed = _
-    rw [f3, h6]; exact hR.closed
+    rw [f3', h6]; exact hR.closed
   · show m1.links.length = m1.readers.length
     rw [h2, h1]; exact hR.linksLen
-  · intro x hx
-    have hx' : x ∈ m1.links := hx
-    rw [h2] at hx'
-    show x ≤ m1.linked
-    rw [h3]; exact hR.linksLe x hx'
-  · intro x y hy
-    have hy' : y ∈ fifo m1 x := hy
-    show y ≤ m1.linked
-    rw [h3]
-    by_cases hx : x = r
-    · subst hx; rw [h7] at hy'; exact hR.fifoLe x y (by rw [hf]; simp [hy'])
-    · rw [h8 x hx] at hy'; exact hR.fifoLe x y hy'
   · intro x
-    show FifoOK (linkOf m1 x) (fifo m1 x) ((arrive (popped s r ws) w r a).1.owed x)
-      (owedBy (arrive (popped s r ws) w r a).1.rows x)
-    rw [f4, hlo]
-    by_cases hx : x = r
-    · subst hx
-      rw [h7, o5, hlo]
-      show FifoOK (linkOf m x) gs (if x = x then ws else s.owed x)
-        (if some g = linkOf m x then (owedBy s.rows x).tail else owedBy s.rows x)
-      rw [if_pos rfl]
-      split at hfo
-      · rename_i hc
-        obtain ⟨ob', e, hrest⟩ := hfo
-        rw [if_pos hc, e]; exact hrest
-      · rename_i hc
-        rw [if_neg hc]; exact hfo.2
-    · rw [h8 x hx, o4 x hx]
-      show FifoOK (linkOf m x) (fifo m x) (if x = r then ws else s.owed x) (owedBy s.rows x)
-      rw [if_neg hx]; exact hR.fifo x
+    show (fifo m1 x).map Prod.snd = (arrive (withQ s o1 f1) w r a).1.owed x
+    rw [f4']; exact hq x
+  · intro x
+    show (m1.flight x).map (fun e => (e.1, e.2.2)) = (arrive (withQ s o1 f1) w r a).1.flight x
+    rw [f6']; exact hf x
+  · intro x e he hs
+    have he' : e ∈ entries m1 x := he
+    have hs' := p6 e.2 x hs
+    show linkOf m1 x = some e.1
+    rw [hlo]
+    exact hR.ent x e (hsub x e he') hs'
+  · refine ⟨p3, ?_, ?_, ?_⟩
+    · intro x w' hw'
+      rw [f4'] at hw'; rw [f5']; exact holt x w' hw'
+    · intro x e he
+      rw [f6'] at he; rw [f5']; exact hflt x e he
+    · intro x w' hw'
+      rw [f4', f6']
+      by_cases hx : x = r
+      · subst hx
+        obtain ⟨hin, hne⟩ := p5 w' hw'
+        rcases hback x w' hin with ⟨_, e⟩ | h
+        · exact absurd e hne
+        · exact h
+      · rw [p4 x hx] at hw'
+        rcases hback x w' hw' with ⟨e, _⟩ | h
+        · exact absurd e hx
+        · exact h
 
-def popPend (m : W) (r : RId) (gs : List Nat) : W :=
+def popPend (m : W) (r : RId) (gs : List (Nat × Nat)) : W :=
   { m with pend := fun x => if x = r then gs else m.pend x }
 
-def popDrops (m : W) (r : RId) (gs : List Nat) : W :=
+def popDrops (m : W) (r : RId) (gs : List (Nat × Nat)) : W :=
   { m with drops := fun x => if x = r then gs else m.drops x }
 
 def closeReader (m : W) (r : RId) : W :=
   { m with closed := fun x => if x = r then true else m.closed x,
            drops := fun x => if x = r then m.pend r else m.drops x,
            pend := fun x => if x = r then [] else m.pend x }
+
+theorem fifo_popPend (m : W) (r : RId) (gs : List (Nat × Nat)) (hc : m.closed r = false) (x : RId) :
+    fifo (popPend m r gs) x = if x = r then gs else fifo m x := by
+  by_cases hx : x = r
+  · subst hx; simp [fifo, popPend, hc]
+  · simp [fifo, popPend, hx]
+
+theorem fifo_popDrops (m : W) (r : RId) (gs : List (Nat × Nat)) (hc : m.closed r = true) (x : RId) :
+    fifo (popDrops m r gs) x = if x = r then gs else fifo m x := by
+  by_cases hx : x = r
+  · subst hx; simp [fifo, popDrops, hc]
+  · simp [fifo, popDrops, hx]
+
+/-- Popping the head `(l, w)` of r's queue (`m1`: the model state after the pop, same flight)
+and handing the response to the writer at once. -/
+theorem sim_pop_recv {m m1 : W} {s : S} (hR : Rel m s) (r : RId) (l w : Nat) (gs : List (Nat × Nat)) (ws : List Nat) (a : Ans)
+    (h1 : m1.readers = m.readers) (h2 : m1.links = m.links) (h4 : m1.rows = m.rows) (h4w : m1.writes = m.writes)
+    (h4n : m1.written = m.written) (h5 : m1.done = m.done) (h6 : m1.closed = m.closed) (h7 : m1.flight = m.flight)
+    (hfi : ∀ x, fifo m1 x = if x = r then gs else fifo m x)
+    (h9 : ∀ x, m1.closed x = true → m1.pend x = []) (h10 : ∀ x, m1.closed x = false → m1.drops x = [])
+    (hfm : fifo m r = (l, w) :: gs) (ho : s.owed r = w :: ws) :
+    (receive m1 a r l w).2 = (arrive (withQ s (fun x => if x = r then ws else s.owed x) s.flight) w r a).2 ∧
+      Rel (receive m1 a r l w).1 (arrive (withQ s (fun x => if x = r then ws else s.owed x) s.flight) w r a).1 := by
+  have hI := hR.inv
+  have hq0 := hR.queue r
+  rw [hfm, ho] at hq0
+  simp only [List.map_cons, List.cons.injEq] at hq0
+  apply sim_recv hR r l w a _ _ h1 h2 h4 h4w h4n h5 h6
+  · intro x
+    rw [hfi]
+    by_cases hx : x = r
+    · subst hx; simp [hq0.2]
+    · simp [hx, hR.queue x]
+  · intro x; rw [h7]; exact hR.flight x
+  · intro x e he
+    simp only [entries, hfi, h7] at he ⊢
+    by_cases hx : x = r
+    · subst hx
+      simp only [if_true, List.mem_append] at he
+      rw [hfm]
+      rcases he with he | he
+      · simp [he]
+      · simp only [List.mem_append]; exact Or.inr he
+    · simpa [hx] using he
+  · simp [entries, hfm]
+  · exact h9
+  · exact h10
+  · intro x w' hw'
+    by_cases hx : x = r
+    · subst hx
+      simp only [if_true] at hw'
+      exact hI.owedLt x w' (by rw [ho]; simp [hw'])
+    · simp only [hx, if_false] at hw'
+      exact hI.owedLt x w' hw'
+  · exact hI.flightLt
+  · intro x w' hw'
+    rcases hI.backed x w' hw' with h | h
+    · by_cases hx : x = r
+      · subst hx
+        rw [ho] at h
+        simp only [List.mem_cons] at h
+        rcases h with e | e
+        · exact Or.inl ⟨rfl, e⟩
+        · right; left; simp [e]
+      · right; left; simp [hx, h]
+    · exact Or.inr (Or.inr h)
+
+theorem queue_cons {m : W} {s : S} (hR : Rel m s) {r : RId} {g : Nat × Nat} {gs : List (Nat × Nat)}
+    (h : fifo m r = g :: gs) : ∃ ws, s.owed r = g.2 :: ws := by
+  have := hR.queue r
+  rw [h] at this
+  exact ⟨gs.map Prod.snd, by rw [← this]; rfl⟩
+
+theorem queue_nil {m : W} {s : S} (hR : Rel m s) {r : RId} (h : fifo m r = []) : s.owed r = [] := by
+  have := hR.queue r
+  rw [h] at this; exact this.symm
 
 theorem sim_answer {m : W} {s : S} (hR : Rel m s) (r : RId) (a : Ans) :
     (Writer.step m (.answer r a)).2 = (WriterSpec.step s (.answer r a)).2 ∧
@@ -893,34 +1122,218 @@ theorem sim_answer {m : W} {s : S} (hR : Rel m s) (r : RId) (a : Ans) :
   have hc' : s.closed r = false := by simpa using hc
   have hmc : m.closed r = false := by rw [hR.closed]; exact hc'
   have hfm : fifo m r = m.pend r := by simp [fifo, hmc]
-  have hlen := fifoOK_len (hR.fifo r)
-  rw [hfm] at hlen
   cases hp : m.pend r with
   | nil =>
-    have ho : s.owed r = [] := by rw [hp] at hlen; exact List.length_eq_zero_iff.1 hlen.symm
+    have ho := queue_nil hR (hfm.trans hp)
     have e1 : Writer.step m (.answer r a) = (m, Out.mk (.ok false) [] []) := by simp [Writer.step, stepWith, hp]
     have e2 : WriterSpec.step s (.answer r a) = (s, Out.mk (.ok false) [] []) := by simp [WriterSpec.step, hc', ho]
     rw [e1, e2]; exact ⟨rfl, hR⟩
   | cons g gs =>
-    cases ho : s.owed r with
-    | nil => rw [hp, ho] at hlen; simp at hlen
-    | cons w ws =>
-      have e1 : Writer.step m (.answer r a) = receive (popPend m r gs) a r g := by
-        simp [Writer.step, stepWith, hp, popPend]
-      have e2 : WriterSpec.step s (.answer r a) = arrive (popped s r ws) w r a := by
-        simp [WriterSpec.step, hc', ho, popped]
-      rw [e1, e2]
-      apply sim_pop (m1 := popPend m r gs) hR r g w gs ws a rfl rfl rfl rfl rfl rfl
-      · simp [fifo, popPend, hmc]
-      · intro r' hne; simp [fifo, popPend, hne]
-      · intro r' hcl0
-        have hcl : m.closed r' = true := hcl0
-        show (if r' = r then gs else m.pend r') = []
-        have hne : r' ≠ r := fun e => by rw [e, hmc] at hcl; cases hcl
-        rw [if_neg hne]; exact hR.pendClosed r' hcl
-      · exact hR.dropsOpen
-      · rw [hfm, hp]
-      · exact ho
+    obtain ⟨ws, ho⟩ := queue_cons hR (hfm.trans hp)
+    have e1 : Writer.step m (.answer r a) = receive (popPend m r gs) a r g.1 g.2 := by
+      simp [Writer.step, stepWith, hp, popPend]
+    have e2 : WriterSpec.step s (.answer r a) =
+        arrive (withQ s (fun x => if x = r then ws else s.owed x) s.flight) g.2 r a := by
+      simp [WriterSpec.step, hc', ho, withQ]
+    rw [e1, e2]
+    apply sim_pop_recv (m1 := popPend m r gs) hR r g.1 g.2 gs ws a rfl rfl rfl rfl rfl rfl rfl rfl
+      (fifo_popPend m r gs hmc)
+    · intro x hcl0
+      have hcl : m.closed x = true := hcl0
+      show (if x = r then gs else m.pend x) = []
+      have hne : x ≠ r := fun e => by rw [e, hmc] at hcl; cases hcl
+      rw [if_neg hne]; exact hR.pendClosed x hcl
+    · exact hR.dropsOpen
+    · rw [hfm, hp]
+    · exact ho
+
+def poppedM (m : W) (r : RId) (a : Ans) (g : Nat × Nat) (gs : List (Nat × Nat)) : W :=
+  { m with pend := fun x => if x = r then gs else m.pend x,
+           flight := fun x => if x = r then m.flight r ++ [(a, g.1, g.2)] else m.flight x }
+
+theorem sim_popStep {m : W} {s : S} (hR : Rel m s) (r : RId) (a : Ans) :
+    (Writer.step m (.pop r a)).2 = (WriterSpec.step s (.pop r a)).2 ∧
+      Rel (Writer.step m (.pop r a)).1 (WriterSpec.step s (.pop r a)).1 := by
+  have hI := hR.inv
+  by_cases hc : s.closed r = true
+  · have hmc : m.closed r = true := by rw [hR.closed]; exact hc
+    have hp := hR.pendClosed r hmc
+    have e1 : Writer.step m (.pop r a) = (m, Out.mk (.ok false) [] []) := by simp [Writer.step, stepWith, hp]
+    have e2 : WriterSpec.step s (.pop r a) = (s, Out.mk (.ok false) [] []) := by simp [WriterSpec.step, hc]
+    rw [e1, e2]; exact ⟨rfl, hR⟩
+  have hc' : s.closed r = false := by simpa using hc
+  have hmc : m.closed r = false := by rw [hR.closed]; exact hc'
+  have hfm : fifo m r = m.pend r := by simp [fifo, hmc]
+  cases hp : m.pend r with
+  | nil =>
+    have ho := queue_nil hR (hfm.trans hp)
+    have e1 : Writer.step m (.pop r a) = (m, Out.mk (.ok false) [] []) := by simp [Writer.step, stepWith, hp]
+    have e2 : WriterSpec.step s (.pop r a) = (s, Out.mk (.ok false) [] []) := by simp [WriterSpec.step, hc', ho]
+    rw [e1, e2]; exact ⟨rfl, hR⟩
+  | cons g gs =>
+    obtain ⟨ws, ho⟩ := queue_cons hR (hfm.trans hp)
+    have hq0 := hR.queue r
+    rw [hfm, hp, ho] at hq0
+    simp only [List.map_cons, List.cons.injEq] at hq0
+    have e1 : Writer.step m (.pop r a) = (poppedM m r a g gs, Out.mk (.ok true) [] []) := by
+      simp [Writer.step, stepWith, hp, poppedM]
+    have e2 : WriterSpec.step s (.pop r a) =
+        (withQ s (fun x => if x = r then ws else s.owed x) (fun x => if x = r then s.flight r ++ [(a, g.2)] else s.flight x),
+         Out.mk (.ok true) [] []) := by
+      simp [WriterSpec.step, hc', ho, withQ]
+    rw [e1, e2]
+    refine ⟨rfl, ?_⟩
+    have hfifo : ∀ x, fifo (poppedM m r a g gs) x = if x = r then gs else fifo m x := by
+      intro x
+      by_cases hx : x = r
+      · subst hx; simp [fifo, poppedM, hmc]
+      · simp [fifo, poppedM, hx]
+    refine ⟨hR.readers, hR.rows, hR.writes, hR.written, hR.done, hR.closed, hR.linksLen, ?_, hR.dropsOpen, ?_, ?_, ?_, ?_⟩
+    · intro x hcl0
+      have hcl : m.closed x = true := hcl0
+      show (if x = r then gs else m.pend x) = []
+      have hne : x ≠ r := fun e => by rw [e, hmc] at hcl; cases hcl
+      rw [if_neg hne]; exact hR.pendClosed x hcl
+    · intro x
+      show (fifo (poppedM m r a g gs) x).map Prod.snd = (if x = r then ws else s.owed x)
+      rw [hfifo]
+      by_cases hx : x = r
+      · subst hx; simp [hq0.2]
+      · simp [hx, hR.queue x]
+    · intro x
+      show ((if x = r then m.flight r ++ [(a, g.1, g.2)] else m.flight x)).map (fun e => (e.1, e.2.2)) =
+        (if x = r then s.flight r ++ [(a, g.2)] else s.flight x)
+      by_cases hx : x = r
+      · subst hx; simp [hR.flight x]
+      · simp [hx, hR.flight x]
+    · intro x e he hs
+      have hlo : linkOf (poppedM m r a g gs) x = linkOf m x := rfl
+      rw [hlo]
+      apply hR.ent x e _ hs
+      have he' : e ∈ fifo (poppedM m r a g gs) x ++ ((if x = r then m.flight r ++ [(a, g.1, g.2)] else m.flight x)).map (·.2) := he
+      rw [hfifo] at he'
+      by_cases hx : x = r
+      · subst hx
+        simp only [if_true, List.map_append, List.map_cons, List.map_nil, List.mem_append, List.mem_singleton] at he'
+        simp only [entries, hfm, hp, List.mem_append, List.mem_cons]
+        rcases he' with he' | he' | he'
+        · exact Or.inl (Or.inr he')
+        · exact Or.inr he'
+        · exact Or.inl (Or.inl he')
+      · simpa [entries, hx] using he'
+    · refine ⟨⟨hI.nodup, hI.rows, hI.head, hI.fin, hI.finRows⟩, ?_, ?_, ?_⟩
+      · intro x w' hw'
+        have hw'' : w' ∈ (if x = r then ws else s.owed x) := hw'
+        by_cases hx : x = r
+        · subst hx
+          simp only [if_true] at hw''
+          exact hI.owedLt x w' (by rw [ho]; simp [hw''])
+        · simp only [hx, if_false] at hw''
+          exact hI.owedLt x w' hw''
+      · intro x e he
+        have he' : e ∈ (if x = r then s.flight r ++ [(a, g.2)] else s.flight x) := he
+        by_cases hx : x = r
+        · subst hx
+          simp only [if_true, List.mem_append, List.mem_singleton] at he'
+          rcases he' with h | h
+          · exact hI.flightLt x e h
+          · rw [h]; exact hI.owedLt x g.2 (by rw [ho]; simp)
+        · simp only [hx, if_false] at he'
+          exact hI.flightLt x e he'
+      · intro x w' hw'
+        show w' ∈ (if x = r then ws else s.owed x) ∨ ∃ a', (a', w') ∈ (if x = r then s.flight r ++ [(a, g.2)] else s.flight x)
+        rcases hI.backed x w' hw' with h | ⟨a', h⟩
+        · by_cases hx : x = r
+          · subst hx
+            rw [ho] at h
+            simp only [List.mem_cons] at h
+            rcases h with e | e
+            · right; exact ⟨a, by simp [e]⟩
+            · left; simp [e]
+          · left; simp [hx, h]
+        · right
+          by_cases hx : x = r
+          · subst hx; exact ⟨a', by simp [h]⟩
+          · exact ⟨a', by simp [hx, h]⟩
+
+theorem map_eraseIdx {α β : Type} (f : α → β) (l : List α) (k : Nat) :
+    (l.eraseIdx k).map f = (l.map f).eraseIdx k := by
+  induction l generalizing k with
+  | nil => rfl
+  | cons a as ih => cases k <;> simp [ih]
+
+def deliveredM (m : W) (r : RId) (k : Nat) : W :=
+  { m with flight := fun x => if x = r then (m.flight r).eraseIdx k else m.flight x }
+
+theorem sim_deliver {m : W} {s : S} (hR : Rel m s) (r : RId) (k : Nat) :
+    (Writer.step m (.deliver r k)).2 = (WriterSpec.step s (.deliver r k)).2 ∧
+      Rel (Writer.step m (.deliver r k)).1 (WriterSpec.step s (.deliver r k)).1 := by
+  have hI := hR.inv
+  have hfl := hR.flight r
+  cases hk : (m.flight r)[k]? with
+  | none =>
+    have hk' : (s.flight r)[k]? = none := by rw [← hfl]; simp [hk]
+    have e1 : Writer.step m (.deliver r k) = (m, Out.mk .skip [] []) := by simp [Writer.step, stepWith, hk]
+    have e2 : WriterSpec.step s (.deliver r k) = (s, Out.mk .skip [] []) := by simp [WriterSpec.step, hk']
+    rw [e1, e2]; exact ⟨rfl, hR⟩
+  | some e =>
+    have hk' : (s.flight r)[k]? = some (e.1, e.2.2) := by rw [← hfl]; simp [hk]
+    have e1 : Writer.step m (.deliver r k) = receive (deliveredM m r k) e.1 r e.2.1 e.2.2 := by
+      simp [Writer.step, stepWith, hk, deliveredM]
+    have e2 : WriterSpec.step s (.deliver r k) =
+        arrive (withQ s s.owed (fun x => if x = r then (s.flight r).eraseIdx k else s.flight x)) e.2.2 r e.1 := by
+      simp [WriterSpec.step, hk', withQ]
+    rw [e1, e2]
+    have hmemk : e ∈ m.flight r := List.mem_of_getElem? hk
+    apply sim_recv (m1 := deliveredM m r k) hR r e.2.1 e.2.2 e.1 _ _ rfl rfl rfl rfl rfl rfl rfl
+    · intro x; exact hR.queue x
+    · intro x
+      show ((if x = r then (m.flight r).eraseIdx k else m.flight x)).map (fun e => (e.1, e.2.2)) =
+        (if x = r then (s.flight r).eraseIdx k else s.flight x)
+      by_cases hx : x = r
+      · subst hx; simp only [if_true]; rw [← hfl, map_eraseIdx]
+      · simp [hx, hR.flight x]
+    · intro x y hy
+      have hy' : y ∈ fifo m x ++ ((if x = r then (m.flight r).eraseIdx k else m.flight x)).map (·.2) := hy
+      simp only [entries]
+      by_cases hx : x = r
+      · subst hx
+        simp only [if_true, List.mem_append, List.mem_map] at hy' ⊢
+        rcases hy' with h | ⟨z, hz, rfl⟩
+        · exact Or.inl h
+        · exact Or.inr ⟨z, List.mem_of_mem_eraseIdx hz, rfl⟩
+      · simpa [hx] using hy'
+    · simp only [entries, List.mem_append, List.mem_map]
+      exact Or.inr ⟨e, hmemk, rfl⟩
+    · exact hR.pendClosed
+    · exact hR.dropsOpen
+    · exact hI.owedLt
+    · intro x y hy
+      by_cases hx : x = r
+      · subst hx
+        simp only [if_true] at hy
+        exact hI.flightLt x y (List.mem_of_mem_eraseIdx hy)
+      · simp only [hx, if_false] at hy
+        exact hI.flightLt x y hy
+    · intro x w' hw'
+      rcases hI.backed x w' hw' with h | ⟨a', h⟩
+      · exact Or.inr (Or.inl h)
+      · by_cases hx : x = r
+        · subst hx
+          by_cases hww : w' = e.2.2
+          · exact Or.inl ⟨rfl, hww⟩
+          · right; right
+            refine ⟨a', ?_⟩
+            simp only [if_true]
+            -- (a', w') is an element of the flight other than the erased one
+            obtain ⟨j, hj⟩ := List.getElem?_of_mem h
+            have hjk : j ≠ k := by
+              intro ejk; subst ejk
+              rw [hk'] at hj
+              injection hj with hj
+              exact hww (congrArg Prod.snd hj).symm
+            exact List.mem_eraseIdx_iff_getElem?.2 ⟨j, hjk, hj⟩
+        · right; right; exact ⟨a', by simp [hx, h]⟩
 
 theorem sim_closeR {m : W} {s : S} (hR : Rel m s) (r : RId) :
     (Writer.step m (.closeR r)).2 = (WriterSpec.step s (.closeR r)).2 ∧
@@ -933,8 +1346,9 @@ theorem sim_closeR {m : W} {s : S} (hR : Rel m s) (r : RId) :
   have hc' : s.closed r = false := by simpa using hc
   have hmc : m.closed r = false := by rw [hR.closed]; exact hc'
   have hfm : fifo m r = m.pend r := by simp [fifo, hmc]
-  have hlen := fifoOK_len (hR.fifo r)
-  rw [hfm] at hlen
+  have hlen : (m.pend r).length = (s.owed r).length := by
+    have := congrArg List.length (hR.queue r)
+    rw [hfm] at this; simpa using this
   have e1 : Writer.step m (.closeR r) = (closeReader m r, Out.mk (.cnt (m.pend r).length) [] []) := by
     simp [Writer.step, stepWith, hmc, closeReader]
   have e2 : WriterSpec.step s (.closeR r) =
@@ -947,10 +1361,9 @@ theorem sim_closeR {m : W} {s : S} (hR : Rel m s) (r : RId) :
     by_cases hx : x = r
     · subst hx; simp [fifo, closeReader, hmc]
     · simp [fifo, closeReader, hx]
-  refine ⟨hR.readers, hR.rows, hR.done, ?_, hR.linksLen, hR.linksLe, ?_, ?_, ?_, ?_, ?_⟩
+  refine ⟨hR.readers, hR.rows, hR.writes, hR.written, hR.done, ?_, hR.linksLen, ?_, ?_, ?_, hR.flight, ?_, ?_⟩
   · show (fun x => if x = r then true else m.closed x) = fun x => if x = r then true else s.closed x
     rw [hR.closed]
-  · intro x g hg; rw [hfifo] at hg; exact hR.fifoLe x g hg
   · intro x hx0
     have hx : (if x = r then true else m.closed x) = true := hx0
     show (if x = r then [] else m.pend x) = []
@@ -966,8 +1379,23 @@ theorem sim_closeR {m : W} {s : S} (hR : Rel m s) (r : RId) :
     rw [if_neg hne]
     have : m.closed x = false := by simpa [hne] using hx
     exact hR.dropsOpen x this
-  · intro x; rw [hfifo]; exact hR.fifo x
-  · exact ⟨hR.inv.nodup, hR.inv.rows, hR.inv.head, hR.inv.fin, hR.inv.owedLt⟩
+  · intro x; rw [hfifo]; exact hR.queue x
+  · intro x e he hs
+    have hlo : linkOf (closeReader m r) x = linkOf m x := rfl
+    rw [hlo]
+    apply hR.ent x e _ hs
+    have he' : e ∈ fifo (closeReader m r) x ++ (m.flight x).map (·.2) := he
+    rw [hfifo] at he'
+    exact he'
+  · exact ⟨⟨hR.inv.nodup, hR.inv.rows, hR.inv.head, hR.inv.fin, hR.inv.finRows⟩, hR.inv.owedLt, hR.inv.flightLt, hR.inv.backed⟩
+
+theorem arrive_ret' (s : S) (w : Nat) (r : RId) (a : Ans) : ∃ b, (arrive s w r a).2.ret = .ok b := by
+  simp only [arrive]
+  split
+  · exact ⟨_, rfl⟩
+  · split
+    · exact ⟨_, rfl⟩
+    · split <;> exact ⟨_, rfl⟩
 
 theorem sim_drop {m : W} {s : S} (hR : Rel m s) (r : RId) :
     (Writer.step m (.deliverDrop r)).2 = (WriterSpec.step s (.deliverDrop r)).2 ∧
@@ -982,43 +1410,39 @@ theorem sim_drop {m : W} {s : S} (hR : Rel m s) (r : RId) :
     rw [e1, e2]; exact ⟨rfl, hR⟩
   have hmc : m.closed r = true := by rw [hR.closed]; exact hc
   have hfm : fifo m r = m.drops r := by simp [fifo, hmc]
-  have hlen := fifoOK_len (hR.fifo r)
-  rw [hfm] at hlen
   cases hp : m.drops r with
   | nil =>
-    have ho : s.owed r = [] := by rw [hp] at hlen; exact List.length_eq_zero_iff.1 hlen.symm
+    have ho := queue_nil hR (hfm.trans hp)
     have e1 : Writer.step m (.deliverDrop r) = (m, Out.mk .skip [] []) := by simp [Writer.step, stepWith, hp]
     have e2 : WriterSpec.step s (.deliverDrop r) = (s, Out.mk .skip [] []) := by simp [WriterSpec.step, hc, ho]
     rw [e1, e2]; exact ⟨rfl, hR⟩
   | cons g gs =>
-    cases ho : s.owed r with
-    | nil => rw [hp, ho] at hlen; simp at hlen
-    | cons w ws =>
-      have hpop := sim_pop (m1 := popDrops m r gs) hR r g w gs ws Ans.dropped rfl rfl rfl rfl rfl rfl
-        (by simp [fifo, popDrops, hmc]) (by intro r' hne; simp [fifo, popDrops, hne])
-        (by intro r' hcl; exact hR.pendClosed r' hcl)
-        (by
-          intro r' hcl0
-          have hcl : m.closed r' = false := hcl0
-          show (if r' = r then gs else m.drops r') = []
-          have hne : r' ≠ r := fun e => by rw [e, hmc] at hcl; cases hcl
-          rw [if_neg hne]; exact hR.dropsOpen r' hcl)
-        (by rw [hfm, hp]) ho
-      obtain ⟨b, hb⟩ := arrive_ret (popped s r ws) w r Ans.dropped
-      have hret : (receiveWith true (popDrops m r gs) Ans.dropped r g).2.ret = .ok b := by
-        have := hpop.1; simp only [receive] at this; rw [this]; exact hb
-      have e1 : Writer.step m (.deliverDrop r) =
-          ((receive (popDrops m r gs) Ans.dropped r g).1,
-           { (receive (popDrops m r gs) Ans.dropped r g).2 with ret := .unit }) := by
-        simp only [popDrops] at hret
-        simp [Writer.step, stepWith, hp, popDrops, hret]
-      have e2 : WriterSpec.step s (.deliverDrop r) =
-          ((arrive (popped s r ws) w r Ans.dropped).1,
-           { (arrive (popped s r ws) w r Ans.dropped).2 with ret := .unit }) := by
-        simp [WriterSpec.step, hc, ho, popped]
-      rw [e1, e2]
-      refine ⟨?_, hpop.2⟩
-      rw [hpop.1]
+    obtain ⟨ws, ho⟩ := queue_cons hR (hfm.trans hp)
+    have hpop := sim_pop_recv (m1 := popDrops m r gs) hR r g.1 g.2 gs ws Ans.dropped rfl rfl rfl rfl rfl rfl rfl rfl
+      (fifo_popDrops m r gs hmc)
+      (by intro x hcl; exact hR.pendClosed x hcl)
+      (by
+        intro x hcl0
+        have hcl : m.closed x = false := hcl0
+        show (if x = r then gs else m.drops x) = []
+        have hne : x ≠ r := fun e => by rw [e, hmc] at hcl; cases hcl
+        rw [if_neg hne]; exact hR.dropsOpen x hcl)
+      (by rw [hfm, hp]) ho
+    obtain ⟨b, hb⟩ := arrive_ret' (withQ s (fun x => if x = r then ws else s.owed x) s.flight) g.2 r Ans.dropped
+    have hret : (receiveWith true (popDrops m r gs) Ans.dropped r g.1 g.2).2.ret = .ok b := by
+      have := hpop.1; simp only [receive] at this; rw [this]; exact hb
+    have e1 : Writer.step m (.deliverDrop r) =
+        ((receive (popDrops m r gs) Ans.dropped r g.1 g.2).1,
+         { (receive (popDrops m r gs) Ans.dropped r g.1 g.2).2 with ret := .unit }) := by
+      simp only [popDrops] at hret
+      simp [Writer.step, stepWith, hp, popDrops, hret]
+    have e2 : WriterSpec.step s (.deliverDrop r) =
+        ((arrive (withQ s (fun x => if x = r then ws else s.owed x) s.flight) g.2 r Ans.dropped).1,
+         { (arrive (withQ s (fun x => if x = r then ws else s.owed x) s.flight) g.2 r Ans.dropped).2 with ret := .unit }) := by
+      simp [WriterSpec.step, hc, ho, withQ]
+    rw [e1, e2]
+    refine ⟨?_, hpop.2⟩
+    rw [hpop.1]
 
 theorem sim_closeW {m : W} {s : S} (hR : Rel m s) :
     (Writer.step m .closeW).2 = (WriterSpec.step s .closeW).2 ∧
@@ -1031,21 +1455,19 @@ theorem sim_closeW {m : W} {s : S} (hR : Rel m s) :
   have hd' : s.done = false := by simpa using hd
   have hmd : m.done = false := hR.done.trans hd'
   have e1 : Writer.step m .closeW =
-      ({ m with done := true, readers := [], links := [], rows := [] },
+      ({ m with done := true, readers := [], links := [], rows := [], writes := [] },
        Out.mk .unit (m.rows.map fun _ => Resp.dropped) []) := by simp [Writer.step, stepWith, hmd]
   have e2 : WriterSpec.step s .closeW =
       ({ s with done := true, linked := [], rows := [], emittedIds := s.emittedIds ++ s.rows.map (·.wid) },
        Out.mk .unit (s.rows.map fun _ => Resp.dropped) []) := by simp [WriterSpec.step, hd']
   rw [e1, e2]
   refine ⟨by rw [hR.rows]; simp, ?_⟩
-  refine ⟨rfl, rfl, rfl, hR.closed, rfl, by simp, hR.fifoLe, hR.pendClosed, hR.dropsOpen, ?_, ?_⟩
-  · intro r
-    have hold := hR.fifo r
-    show FifoOK (linkOf { m with done := true, readers := [], links := [], rows := [] } r) (fifo m r) (s.owed r) (owedBy [] r)
-    have : linkOf { m with done := true, readers := [], links := [], rows := [] } r = none := by simp [linkOf, indexOf]
-    rw [this]
-    exact fifoOK_stale (fifoOK_len hold) (by simp)
-  · exact ⟨by simp, ⟨by simp, by simp, by simp, by simp⟩, by simp, by simp, hR.inv.owedLt⟩
+  refine ⟨rfl, rfl, rfl, hR.written, rfl, hR.closed, rfl, hR.pendClosed, hR.dropsOpen, hR.queue, hR.flight, ?_, ?_⟩
+  · intro r e _ hs
+    obtain ⟨row, hm, _⟩ := hs
+    cases hm
+  · exact ⟨⟨by simp, ⟨by simp, by simp, by simp, by simp⟩, by simp, by simp, by simp⟩,
+      hR.inv.owedLt, hR.inv.flightLt, by simp [owedBy]⟩
 
 /-- One step of the model is one step of the specification – every step, from every related
 pair of states. -/
@@ -1056,6 +1478,8 @@ theorem sim_step {m : W} {s : S} (hR : Rel m s) (st : Step) :
   | unlink r => exact sim_unlink hR r
   | write v => exact sim_write hR v
   | answer r a => exact sim_answer hR r a
+  | pop r a => exact sim_popStep hR r a
+  | deliver r k => exact sim_deliver hR r k
   | closeR r => exact sim_closeR hR r
   | deliverDrop r => exact sim_drop hR r
   | closeW => exact sim_closeW hR
